@@ -12,7 +12,7 @@ from . import bootstrap
 from .harness import Ctx, install_watchdog, jdump
 
 SOFT_BUDGET = {'quick': 40.0, 'thorough': 600.0}
-HARD_WATCHDOG = {'quick': 900, 'thorough': 3 * 3600}
+HARD_WATCHDOG = {'quick': 1500, 'thorough': 3 * 3600}
 NSHARDS_THOROUGH = int(os.environ.get('VERIF_SHARDS', '16'))
 
 
